@@ -1,0 +1,34 @@
+//go:build !verif
+
+// Package simhook carries the scheduling, fault and network seams used by the
+// deterministic simulator in /verif. With the "verif" build tag off every
+// function here is an empty inlineable stub.
+package simhook
+
+import (
+	"context"
+	"net"
+)
+
+// Enabled reports whether hooks are compiled in.
+const Enabled = false
+
+// At is a scheduling point (no-op).
+func At(point string, detail ...string) {}
+
+// Hold marks the start (+1) or end (-1) of a region which sleeps while holding
+// locks (no-op).
+func Hold(id string, delta int) {}
+
+// Fail is a cooperative fault point (never fires).
+func Fail(site string, detail ...string) bool { return false }
+
+// Listen never takes over the network in regular builds.
+func Listen(network, addr string) (net.Listener, error, bool) {
+	return nil, nil, false
+}
+
+// Dial never takes over the network in regular builds.
+func Dial(ctx context.Context, network, addr string) (net.Conn, error, bool) {
+	return nil, nil, false
+}
